@@ -1472,6 +1472,18 @@ def n8(facts, tier):
                          f"{tname}::get_definition(version) describes its nested interface `{nested}` at a fixed version "
                          f"({a.get('int', a.get('k'))}) instead of `version`: the definition of an older version carries the newest nested "
                          f"interface, so the ledger rejects a compatible evolution (and negotiation compares the wrong nested definitions)")
+        ns = 0
+        for x in walk(f["body"]):
+            if x.get("k") == "Call" and callee(x) == "savefile::get_schema" and x.get("args"):
+                ns += 1
+                a = peel_block(peel(x["args"][0]))
+                t = (x.get("targs") or ["?"])[0]
+                ok = (a.get("k") == "Var" and a["v"] == ver) or t == "()"
+                yield ob(["C15", "C10"], "N8", f"{tname}:schema#{ns}", "pass" if ok else "violation", where(f, x),
+                         f"{tname}: schema of {t} taken at the requested version" if ok else
+                         f"{tname}::get_definition(version) takes the schema of `{t}` at a fixed version ({a.get('int', a.get('k'))}) instead of "
+                         f"`version`: the definition of an older interface version describes this type as of the newest version, so the ledger "
+                         f"rejects (or records wrongly) a backward-compatible evolution of the type")
 
 
 # ---------------------------------------------------------------------------------------------
